@@ -46,6 +46,9 @@ pub struct Cfg {
     pub yield_mode: bool,
     #[serde(default)]
     pub backend: crate::disk::Backend,
+    /// skip per-call model snapshots (only needed by crash / fault enumeration); for very long runs
+    #[serde(default)]
+    pub no_snapshots: bool,
 }
 
 impl Cfg {
@@ -60,6 +63,7 @@ impl Cfg {
             judge_layout: false,
             yield_mode: false,
             backend: crate::disk::Backend::Sim,
+            no_snapshots: false,
         }
     }
 }
@@ -118,6 +122,9 @@ pub enum Step {
     Converge,
     /// bookkeeping from the network simulator (fault counters, simulated time)
     Note { what: String, v: u64 },
+    /// honest block requests for every index in [from, until) except `skip`, ascending (compact
+    /// form for replicas that fetch whole bitfield pages)
+    SyncBlocks { to: u8, from: u64, until: u64, skip: Option<u64> },
 }
 
 impl Step {
@@ -137,7 +144,7 @@ impl Step {
             | Step::BadOpen { n }
             | Step::CrashRestart { n, .. }
             | Step::Scan { n } => *n,
-            Step::NetSend { to, .. } => *to,
+            Step::NetSend { to, .. } | Step::SyncBlocks { to, .. } => *to,
             Step::NetServe { .. } | Step::NetDeliver { .. } | Step::Converge | Step::Note { .. } => 0,
             Step::Sync { to, .. } | Step::Tamper { to, .. } | Step::TamperAll { to, .. } => *to,
         }
@@ -513,6 +520,7 @@ impl World {
     }
 
     pub fn begin_call(&mut self, n: usize, label: &str) -> usize {
+        crate::exec::wd_touch();
         let c = self.calls.len();
         self.call_no = c as u32;
         let (j0, o0) = {
@@ -524,8 +532,8 @@ impl World {
             node: n as u8,
             step: self.cur_step,
             label: label.to_string(),
-            before: self.nodes[n].model.clone(),
-            after: self.nodes[n].model.clone(),
+            before: if self.cfg.no_snapshots { Model::default() } else { self.nodes[n].model.clone() },
+            after: Model::default(),
             j0,
             j1: j0,
             o0,
@@ -545,7 +553,9 @@ impl World {
             let st = self.nodes[n].disk.lock();
             (st.journal.len(), st.ops)
         };
-        self.calls[c].after = self.nodes[n].model.clone();
+        if !self.cfg.no_snapshots {
+            self.calls[c].after = self.nodes[n].model.clone();
+        }
         self.calls[c].j1 = j1;
         self.calls[c].o1 = o1;
         self.calls[c].returned_ok = ok;
@@ -700,6 +710,21 @@ impl World {
             Step::NetDeliver { id } => crate::net::do_deliver(self, *id),
             Step::CrashRestart { back, .. } => crate::net::do_crash_restart(self, n, *back),
             Step::Converge => crate::net::do_converge(self),
+            Step::SyncBlocks { from, until, skip, .. } => {
+                for i in *from..*until {
+                    if Some(i) == *skip {
+                        continue;
+                    }
+                    if self.aborted.is_some() || self.nodes[n].core.is_none() {
+                        break;
+                    }
+                    if i % 512 == 0 {
+                        crate::exec::wd_touch();
+                    }
+                    let req = Req { block: Some(i), ..Default::default() };
+                    crate::repl::do_sync(self, n, &req);
+                }
+            }
             Step::Note { what, v } => {
                 if what == "sim_time" {
                     self.sim_time = *v;
@@ -884,7 +909,9 @@ impl World {
                         format!("get({index}) returned {} expected {}", show_opt(&v), show_opt(&exp)),
                     );
                 }
-                let ev: Vec<Ev> = if exp.is_none() { vec![Ev::Get(index)] } else { vec![] };
+                // C13 is judged against what the core itself reported (not held => one Get event),
+                // so that a wrong `held` set (C01/C08's clause) is not double-counted here
+                let ev: Vec<Ev> = if v.is_none() { vec![Ev::Get(index)] } else { vec![] };
                 self.expect_events(n, "get", &ev);
             }
             other => {
